@@ -340,6 +340,9 @@ def judge_design(c, b, drv, per_valid, cap):
                 pr = (fr.get("type") or {}).get("prim")
                 if fn in (ra.get("required") or []) and fr.get("has_default") and fn not in rl and not fr.get("val") and pr and pr not in ("Bytes", "Any"):
                     zeros[fn] = False if pr == "Boolean" else "" if pr == "String" else 0
+            for an in rl:  # header/cookie transport of odd strings is C03's subject (as in c04.plan)
+                if isinstance(res.get(an), str) and not re.match(r"^[A-Za-z0-9._-]+$", res[an]):
+                    res[an] = "abc"
             if zeros:
                 cmds.append({"op": "call", "service": s["name"], "method": m["name"], "payload": p, "script": {"result": dict(res, **zeros)}})
                 meta.append((s, m, "response", "zero-of-required-default", p, locs, True))
